@@ -222,6 +222,31 @@ class Mode:
         ok = self._evalf(concl)
         return self._rec(name, "discharged" if ok else "failed", "run", 0.0, detail=detail)
 
+    def eq_under(self, name, path, cond, got, exp):
+        """obligation: on the part of the path where `cond` holds, got == exp.  The region is checked
+        non-empty by z3; on a non-empty region the two sides must be identical as functions (polyid);
+        the z3 model of the region is the candidate counterexample otherwise."""
+        t = time.time()
+        if self.symbolic:
+            from . import alg, paths as P, sym as S
+
+            r, model, dt = P.check_sat(path.formulas() + [cond])
+            if r == "unsat":
+                return self._rec(name, "discharged", "z3", dt, detail="case cannot occur on this path", vacuous=True)
+            if isinstance(got, S.SymInf) or isinstance(exp, S.SymInf):
+                return self._rec(name, "undecided", "-", dt, detail="infinite value on a feasible case")
+            vg, ve = S.expand(S.lift(got)), S.expand(S.lift(exp))
+            if alg.v_equal(vg, ve):
+                return self._rec(name, "discharged", "z3+polyid", time.time() - t)
+            if r != "sat":
+                return self._rec(name, "undecided", "z3", dt, detail="region feasibility unknown and values differ")
+            return self._rec(name, "failed", "z3+polyid", time.time() - t, cex={"env": model}, got=alg.fmt(vg, 8), exp=alg.fmt(ve, 8))
+        if self.wanted is not None and name != self.wanted:
+            return None
+        if not self._evalf(cond):
+            return self._rec(name, "discharged", "run", 0.0, detail="case does not apply at this input")
+        return self._rec(name, "value", self.kind, 0.0, got=_num(got), exp=_num(exp))
+
     def feasible(self, name, path):
         """non-vacuity: the path condition (with the preconditions) is satisfiable"""
         if not self.symbolic:
@@ -526,10 +551,17 @@ def summarize(check, tier, seed, records, wall, extra_bounded=None):
     os.makedirs(os.path.join(VERIF, "replays"), exist_ok=True)
     seen_known = set()
     nreplay = 0
+    # replay budget: spread over distinct shapes / obligation families first
+    order, seen_fam = [], set()
+    for item in failed:
+        fam = (item[1]["harness"], _shape_tag(item[1]["shape"]), item[2]["name"].split("[")[0].rsplit("/", 1)[-1])
+        order.append((fam in seen_fam, len(order), item))
+        seen_fam.add(fam)
+    failed = [it for _, _, it in sorted(order, key=lambda t: (t[0], t[1]))]
     for full, rec, r in failed:
         kf = match_known(prop, full, known)
         verdict = None
-        if r.get("cex") and r["cex"].get("env") is not None and rec.get("harness") and nreplay < 4:
+        if r.get("cex") and r["cex"].get("env") is not None and rec.get("harness") and nreplay < 8:
             nreplay += 1
             verdict = native_replay(rec["harness"], rec["shape"], r["cex"]["env"], r["name"], prop, 1e-8)
         if kf is not None:
